@@ -123,6 +123,13 @@ def ref_tree(types, t, S=()):
     return (t, tuple(sorted((ref_tree(types, d, S) if (d in types and d not in S) else d for d in types[t][1]), key=repr)))
 
 
+def ref_dict(types, t, fs_orders=None, model="PHSP"):
+    """The documented dictionary form of the chain below `t`, written down from the type-level tree (not through the library)."""
+    bf, ds = types[t]
+    ds = list((fs_orders or {}).get(t, ds))
+    return {t: [{"bf": bf, "fs": [ref_dict(types, d, fs_orders, model) if d in types else d for d in ds], "model": model, "model_params": ""}]}
+
+
 def occurrences(types, m):
     """How often each decaying type occurs in the unfolded tree (for class detection)."""
     occ = Counter()
